@@ -18,3 +18,14 @@ func VerifSentinel(l Limiter) <-chan error {
 	c.lock.Unlock()
 	return done
 }
+
+// VerifLock takes the controller's lock on behalf of the harness (area `window`: the harness holds the lock across a
+// tick so that the ticker goroutine and the calls under test queue up behind it), VerifUnlock releases it.
+func VerifLock(l Limiter) { l.(*limiter).controller.lock.Lock() }
+
+// VerifUnlock releases the lock taken by VerifLock.
+func VerifUnlock(l Limiter) { l.(*limiter).controller.lock.Unlock() }
+
+// VerifTickConsumed reports whether the ticker's channel is empty, i.e. a tick that has fired has been received by the
+// ticker goroutine (which is then blocked on the lock the harness holds).
+func VerifTickConsumed(l Limiter) bool { return len(l.(*limiter).controller.ticker.C) == 0 }
